@@ -22,7 +22,31 @@ def M(id_, file, old, new, props):
 
 
 MUTANTS = [
+    # ---------------- estimator algebra (rule E)
+    M('mean-likelihood-over-proposals', S,
+      "self.shell_log_l[index] = logsumexp(log_l) - np.log(shell_n)",
+      "self.shell_log_l[index] = logsumexp(log_l) - np.log(shell_n_sample)", 'C02'),
+    M('kish-without-square', S, "self.shell_n_eff[index] = np.exp(2 * logsumexp(log_l) -",
+      "self.shell_n_eff[index] = np.exp(logsumexp(log_l) -", 'C02'),
+    M('evidence-volume-squared', S,
+      "        return logsumexp(self.shell_log_l[select] + self.shell_log_v[select])",
+      "        return logsumexp(self.shell_log_l[select] + 2 * self.shell_log_v[select])", 'C02'),
+    M('neff-divides-by-count', S, "        sum_w_sq = sum_w**2 / self.shell_n_eff[select]",
+      "        sum_w_sq = sum_w**2 / self.shell_n[select]", 'C02'),
+    M('live-weights-unshared-volume', S,
+      "                self.shell_log_v - np.log(np.maximum(self.shell_n, 1)),\n"
+      "                self.shell_n)\n            log_l = np.concatenate(self.log_l)\n"
+      "            log_w",
+      "                self.shell_log_v,\n"
+      "                self.shell_n)\n            log_l = np.concatenate(self.log_l)\n"
+      "            log_w", 'C02'),
+    M('weights-normalised-by-max', S, "        log_w = log_w - logsumexp(log_w)",
+      "        log_w = log_w - np.amax(log_w)", 'C02'),
+    M('kept-fraction-inverted', S, "np.log(shell_n / shell_n_sample))",
+      "np.log(shell_n_sample / shell_n))", 'C02'),
     # ---------------- round-3 additions
+    M('bernoulli-of-r-not-frac', S, "self.rng.random(len(repeats)) < repeats - np.floor(repeats)",
+      "self.rng.random(len(repeats)) < repeats", 'C14'),
     M('centre-without-half-turn', PS, "np.amax(dx) / 2.0 + 0.5) % 1", "np.amax(dx) / 2.0) % 1",
       'C16'),
     M('centre-third-of-gap', PS, "np.amax(dx) / 2.0 + 0.5) % 1", "np.amax(dx) / 3.0 + 0.5) % 1",
@@ -869,6 +893,41 @@ BENIGN += [
          new="0.5 + np.amax(dx) * 0.5 + x[np.argmax(dx)]) % 1", props=ALL.split()),
     dict(id='centre-minus-half', file=PS, old="x[np.argmax(dx)] + np.amax(dx) / 2.0 + 0.5) % 1",
          new="x[np.argmax(dx)] + dx[np.argmax(dx)] / 2 - 0.5) % 1", props=ALL.split()),
+    dict(id='rounding-floor-of-sum', file=S,
+         old="            repeats = np.floor(repeats).astype(int) + (\n"
+             "                self.rng.random(len(repeats)) < repeats - np.floor(repeats)\n"
+             "            ).astype(int)",
+         new="            repeats = np.floor(repeats + self.rng.random(len(repeats))).astype(int)",
+         props=ALL.split()),
+    dict(id='rounding-frac-by-modulo', file=S,
+         old="self.rng.random(len(repeats)) < repeats - np.floor(repeats)",
+         new="repeats % 1 > self.rng.random(len(repeats))", props=ALL.split()),
+    dict(id='mask-when-boost-at-most-one', file=S,
+         old=("            points = np.repeat(points, repeats, axis=0)\n"
+      "            log_w = np.zeros(np.sum(repeats))\n"
+      "            log_l = np.repeat(log_l, repeats, axis=0)\n"
+      "            if return_blobs:\n"
+      "                blobs = np.repeat(blobs, repeats, axis=0)\n"),
+         new=("            if equal_weight_boost > 1:\n"
+      "                select = np.repeat(np.arange(len(repeats)), repeats)\n"
+      "            else:\n"
+      "                select = repeats > 0\n"
+      "            points = points[select]\n"
+      "            log_w = np.zeros(len(points))\n"
+      "            log_l = log_l[select]\n"
+      "            if return_blobs:\n"
+      "                blobs = blobs[select]\n"), props=ALL.split()),
+    dict(id='kept-fraction-as-difference', file=S, old="np.log(shell_n / shell_n_sample))",
+         new="np.log(shell_n) - np.log(shell_n_sample))", props=ALL.split()),
+    dict(id='mean-likelihood-inside-lse', file=S,
+         old="self.shell_log_l[index] = logsumexp(log_l) - np.log(shell_n)",
+         new="self.shell_log_l[index] = logsumexp(log_l - np.log(shell_n))", props=ALL.split()),
+    dict(id='neff-inlined-denominator', file=S,
+         old="        return np.sum(sum_w)**2 / np.sum(sum_w_sq)",
+         new="        return np.sum(sum_w) ** 2 / np.sum(sum_w ** 2 / self.shell_n_eff[select])",
+         props=ALL.split()),
+    dict(id='weights-normalised-in-place', file=S, old="        log_w = log_w - logsumexp(log_w)",
+         new="        log_w -= logsumexp(log_w)", props=ALL.split()),
     dict(id='with-statement', file=S, old="fstream = h5py.File(filepath_tmp, 'w')", new=None,
          fn=_with_statement, props=ALL.split()),
     dict(id='guard-clause-trim', file=U, old="            return False\n\n    def contains",
